@@ -570,7 +570,7 @@ class SessionRig:
         self.cfg_obj, n = sessions.make_config(local_as=65000, peer_as=65001, local_address='127.0.0.1', peer_address='127.0.0.1')
         n.hold_time = type(n.hold_time)(self.cfg['hold'])
         n.api = ParseAPI.flatten({})
-        n.api['neighbor-changes'] = bool(self.cfg['api_changes'])
+        n.api['neighbor-changes'] = ['svc'] if self.cfg['api_changes'] else []  # the names of the subscribed helper programs, as ParseAPI leaves them
         n.api['fsm'] = bool(self.cfg['api_fsm'])
         if self.cfg['parse']:
             n.api['receive-update'] = True
@@ -868,6 +868,25 @@ class SessionRig:
         elif k == 'announce':
             for _ in range(int(ev[1])):
                 self.neighbor.rib.outgoing.add_to_rib(self._route())
+        elif k == 'reconfigure':
+            # a configuration reload which keeps the session parameters (`Reactor.reload` -> `Peer.reconfigure`):
+            # a new Neighbor object of the same name, same RIB, the one it replaces as `previous`; variant 1: the
+            # reload attached one more helper program to the neighbor's `neighbor-changes`; variant 2: one more route
+            # (outside M-Session: scripts with this event are judged by the oracle and the trace checker)
+            import copy as _copy
+
+            old = peer.neighbor
+            new = _copy.copy(old)
+            new.api = dict(old.api)
+            new.routes = list(old.routes)
+            v = int(ev[1]) if len(ev) > 1 else 0
+            if v == 1 and new.api.get('neighbor-changes'):
+                new.api['neighbor-changes'] = list(new.api['neighbor-changes']) + ['observer']
+            if v == 2:
+                new.routes.append(self._route())
+            new.previous = old
+            self.neighbor = new
+            peer.reconfigure(new)
         else:
             raise RigError(f'unknown event {ev}')
         await self.settle()
@@ -1687,6 +1706,13 @@ def run_property(ctx: Any, prop: str, fault_weight: float) -> None:
                 if quick and (k + j) % 4 != pick:
                     continue  # a quarter of them per quick run (which quarter: the seed), all of them in thorough
                 cases.append((script, dict(cfg, **extra), 'outside-model:' + origin, 'outside'))
+    # a reload that keeps the session parameters, at every stage (not an event of M-Session: oracle + trace checker)
+    for stage in ('opensent', 'openconfirm', 'established-fresh', 'established', 'second-session'):
+        prefix, c = STAGES[stage]
+        for v in (0, 1, 2):
+            for tail in ([['tick'], ['tick']], [['tick'], ['recv', c, 'keepalive'], ['tick'], ['eof', c]], [['recv', c, 'update'], ['tick'], ['teardown', 2], ['tick']]):
+                for extra in ({'routes': 1}, {'routes': 1, 'api_changes': False}):
+                    cases.append((prefix + [['reconfigure', v]] + tail + TAIL, dict(extra), f'outside-model:reconfigure/{stage}/{v}', 'outside'))
     if spec is not None:
         variants = [{}, {}, {'routes': 3}, {'routes': 3, 'hold': 9}, {'attempts': 1}, {'attempts': 3, 'routes': 1}, {'passive': True}, {'graceful': True, 'routes': 1}, {'hold': 3, 'routes': 1}, {'hold': 0}, {'hold': 180, 'peer_hold': 90}, {'api_forward': True}, {'api_forward': True, 'routes': 1}, {'api_changes': False}, {'api_changes': False, 'api_forward': True}]
         for i in range(n_random):
@@ -1788,7 +1814,7 @@ def run_property(ctx: Any, prop: str, fault_weight: float) -> None:
         if 'error' in r:
             return []
         found = oracle(cand, r, rfc_table, ccfg) if prop == 'C05' else oracle(cand, r, ccfg, error_class)
-        if ccfg.get('local_as_auto') or ccfg.get('peer_as_auto'):
+        if ccfg.get('local_as_auto') or ccfg.get('peer_as_auto') or any(e[0] == 'reconfigure' for e in cand):
             found = found + monitor(r)
         return found
 
@@ -1839,9 +1865,17 @@ def replay_file(path: str, prop: str) -> int:
     found = oracle_c05(script, res, rfc_table, cfg) if prop == 'C05' else oracle_c10(script, res, cfg, error_class)
     for rule, what in found:
         print('FAILS', rule, ':', what)
-    model = run_model_batch([(script, cfg)])[0]
-    d = first_difference(script, res['buckets'], model)
-    print('model agrees' if d is None else f'model differs at event {d[0]}: impl {d[1]} model {d[2]}')
+    if cfg.get('local_as_auto') or cfg.get('peer_as_auto') or any(e[0] == 'reconfigure' for e in script):
+        # outside M-Session: the observed trace through the model's trace checker instead of a step-by-step comparison
+        kept = [it for b in res['buckets'] for it in b if it.split(' ')[0] in ('fsm', 'send', 'close', 'up', 'down', 'reject')]
+        verdict = spec.ask('session chk 1 ' + ';'.join(kept)) if kept else 'accepted'
+        print('trace checker:', verdict, '' if verdict == 'accepted' else f'({kept[int(verdict.split(" ")[1])]})')
+        if verdict != 'accepted':
+            found = found + [('trace-checker', verdict)]
+    else:
+        model = run_model_batch([(script, cfg)])[0]
+        d = first_difference(script, res['buckets'], model)
+        print('model agrees' if d is None else f'model differs at event {d[0]}: impl {d[1]} model {d[2]}')
     spec.close()
     print('holds :', not found)
     return 0 if not found else 1
